@@ -55,7 +55,7 @@ let handle = function
   | "run" :: var :: m :: size :: ind :: unq :: noe :: rest ->
       let c, o = variant var in let f = flags ind unq noe in
       let v, _ = pval rest in
-      (match run c (root_ops o f v) (init c (mode m) (z_of_string size)) with
+      (match run_f c (root_ops o f v) (init c (mode m) (z_of_string size)) with
        | None -> "HANG"
        | Some s -> let r = observe s in summary r ^ " " ^ hex_of_zs r.r_text ^ " " ^ String.concat "," (List.map string_of_z r.r_trace))
   | "sweep" :: var :: m :: from :: upto :: ind :: unq :: noe :: rest ->
@@ -66,7 +66,7 @@ let handle = function
       let buf = Buffer.create 4096 in
       for sz = a to b do
         if sz > a then Buffer.add_char buf ' ';
-        (match run c ops (init c (mode m) (z_of_int sz)) with
+        (match run_f c ops (init c (mode m) (z_of_int sz)) with
          | None -> Buffer.add_string buf "H"
          | Some s -> Buffer.add_string buf (summary (observe s)))
       done;
